@@ -12,6 +12,10 @@ from ..gen import HEADER, src
 
 UNITS = ["years", "months", "weeks", "days", "hours", "minutes", "seconds", "microseconds"]
 DTV, METH, CMPOP, GEN = "dtv", "meth", "cmpop", "gen_out"
+# `except <class>` catches the class and its subclasses: the exception kinds of Lib/PyBase.v each builtin class covers
+# (pendulum: ParserError(ValueError), TimezoneError(ValueError) > NonExistingTime, AmbiguousTime)
+EXN_CTOR = {"OverflowError": ["E_OverflowError"], "ValueError": ["E_ValueError", "E_ParserError", "E_NonExistingTime", "E_AmbiguousTime"],
+            "TypeError": ["E_TypeError"]}
 
 
 class GenTr(P.FunTr):
@@ -104,6 +108,27 @@ class GenTr(P.FunTr):
                     n = s.targets[0].id
                     self.env[n] = t[1]
                     return (f"match {e} with\n  | Raise exn_ => ([], GRaise exn_)\n  | Ok {self.v(n)} =>\n  " + self.block(rest, k) + "\n  end")
+            if isinstance(s, ast.Try) and self.is_gen:
+                # try: <name> = <call that may raise>  except (E1, E2, ...): return      -- the generator finishes when one of the named
+                # exceptions is raised by the call; any other exception still ends the run with GRaise
+                h = s.handlers
+                if (len(s.body) != 1 or s.orelse or s.finalbody or len(h) != 1 or h[0].name is not None or h[0].type is None
+                        or len(h[0].body) != 1 or not isinstance(h[0].body[0], ast.Return) or h[0].body[0].value is not None):
+                    self.fail(s, "try statement shape")
+                a = s.body[0]
+                if not (isinstance(a, ast.Assign) and len(a.targets) == 1 and isinstance(a.targets[0], ast.Name)):
+                    self.fail(s, "try body is not a single assignment to a name")
+                types = h[0].type.elts if isinstance(h[0].type, ast.Tuple) else [h[0].type]
+                if not types or not all(isinstance(t_, ast.Name) and t_.id in EXN_CTOR for t_ in types):
+                    self.fail(s, "exception classes of the handler")
+                e, t = self.expr(a.value)
+                if not (isinstance(t, tuple) and len(t) == 2 and t[0] == "result"):
+                    self.fail(s, "try around an expression that cannot raise in the model")
+                n = a.targets[0].id
+                self.env[n] = t[1]
+                pats = " | ".join(dict.fromkeys(c_ for t_ in types for c_ in EXN_CTOR[t_.id]))
+                return (f"match {e} with\n  | Raise exn_ => match exn_ with {pats} => ([], GDone) | _ => ([], GRaise exn_) end\n"
+                        f"  | Ok {self.v(n)} =>\n  " + self.block(rest, k) + "\n  end")
             if isinstance(s, (ast.Return, ast.Raise)) and self.is_gen:
                 self.fail(s, "return/raise inside a generator")
         return super().block(stmts, k)
